@@ -287,6 +287,9 @@ func (e *epochRun) runTask(t *Task, ti int) {
 			pre = op.Pre
 		}
 		e.sim.BeginOp(oi, op.Kind, pre)
+		if e.plan {
+			e.sim.SetLockPlan(op.PreLock)
+		}
 		def.Exec(x, op, r)
 		r.Steps = e.sim.EndOp()
 		x.results = append(x.results, r)
